@@ -474,6 +474,7 @@ void Exec::step(const Step &s) {
   if (t == "hello") {
     if (c.closed) return;
     wire::Msg m = w.hello_msg(ci);
+    m.flags = (uint8_t)s.N(1, 0);
     send_msg(ci, m, s.N(0, -1));
     note("c" + std::to_string(ci) + ":Hello");
     return;
